@@ -122,7 +122,12 @@ def _run_vc(args):
                 if isinstance(g_, (list, tuple)):  # a post may split into several independent goals
                     for gi, gg in enumerate(g_):
                         n_emitted += 1
-                        decide("%s/%s#path%d.%d" % (vc.name, pname, pi, gi), hyps + list(p.pc), gg)
+                        label = str(gi)
+                        if isinstance(gg, tuple):  # (label, goal)
+                            label, gg = gg
+                        if gg is True or gg is False:
+                            gg = z3.BoolVal(gg)
+                        decide("%s/%s#path%d.%s" % (vc.name, pname, pi, label), hyps + list(p.pc), gg)
                     continue
                 n_emitted += 1
                 decide("%s/%s#path%d" % (vc.name, pname, pi), hyps + list(p.pc), g_)
